@@ -13,6 +13,8 @@ mod ring;
 mod segment;
 mod flush;
 mod executor;
+mod ttl_ops;
+mod conn;
 use std::panic;
 
 pub struct Found {
@@ -61,6 +63,9 @@ fn main() {
         "flush" => flush::search(&pid, &oid, seed),
         "expiry" => executor::search_expiry(&pid, &oid, seed),
         "incr_frame" => executor::search_incr(&pid, &oid, seed),
+        "ttl_ops" => ttl_ops::search(&pid, &oid, seed),
+        "err_frame" => executor::search_err(&pid, &oid, seed),
+        "conn" | "batch_collect" => conn::search(&pid, &oid, seed),
         _ => None,
     };
     match res {
